@@ -116,11 +116,16 @@ async def _session(seed: int, *, bounded: bool = False) -> dict[str, Any]:
             data = out_stream[pos : pos + n]
             pos += n
             ev("write", "out", n)
-            if rng.random() < 0.5:
+            how = rng.random()
+            if how < 0.45:
                 await tls.send_all(data)
-            else:
+            elif how < 0.8 or n < 1500:
                 k = rng.randint(0, n)
                 await tls.send_all_from_iterable([data[:k], b"", data[k:]])
+            else:
+                # a packet produced as a great many small chunks (an incremental serializer yielding field by field)
+                step = max(1, n // rng.choice([1100, 2500, 5000]))
+                await tls.send_all_from_iterable(data[i : i + step] for i in range(0, n, step))
             if rng.random() < 0.3:
                 await asyncio.sleep(0)
 
